@@ -166,7 +166,6 @@ pub fn normalise(ctx: &Ctx) {
         }
     }
     let vals = stored_values(&ty, ctx.tier_thorough);
-    let k_attr = 3 + if attr == 0 { 0 } else { attr - 1 };
     let points: Vec<Vec<Val>> = vals
         .iter()
         .map(|v| {
